@@ -8,6 +8,8 @@ case index), extra (argv), thorough_only.
 ENG = {
     "hhfuzz": {"name": "hhfuzz", "sources": ["hhfuzz.c"]},
     "poolfuzz": {"name": "poolfuzz", "sources": ["poolfuzz.c"]},
+    "rngdet": {"name": "rngdet", "sources": ["rngdet.c"]},
+    "rngsamp": {"name": "rngsamp", "sources": ["rngsamp.c"]},
 }
 
 
@@ -65,6 +67,43 @@ PROPS["C20"] = {
                     "ASan build: hook H3 poisons objects on the free list, so a touch of a freed object or a doubly handed-out object is an ASan report"],
 }
 
+PROPS["C15"] = {
+    "engines": ENG,
+    "jobs": [
+        J("rng-raw-reference", "rngdet", "rel", 0, 40, 2000),
+        J("rng-pollution", "rngdet", "rel", 1, 2000, 200000),
+        J("rng-threads-tsan", "rngdet", "tsan", 2, 150, 5000, timeout=120),
+    ],
+    "rule": ("(i) raw 64-bit stream of 50 seeds per case (corner seeds 0,1,2^63,2^64-1,DUMMY + random) x 256 outputs against an independent "
+             "splitmix64->sfc64(+20 discards) reference; (ii) pollution differential: a random call program S (40-200 calls over all 36 "
+             "sampling functions, random admissible parameters) run after seeding in a fresh thread, in a thread that first ran a random "
+             "history H ending half-way through cached state (1-63 coin flips, another gamma shape, another geometric p) and re-seeded, in "
+             "the main thread after a history, and concurrently with 1-15 other threads; every returned bit pattern must be identical; "
+             "distinct = fingerprint of S's function sequence and H's tail; all cases non-trivial"),
+    "headline": ["seeds_vs_reference", "raw_outputs_compared", "pairs_fresh_vs_polluted", "pairs_fresh_vs_main_thread",
+                 "pairs_solo_vs_concurrent", "concurrent_threads", "max_threads_at_once", "S_calls", "H_calls", "flip", "std_gamma", "geometric"],
+    "min_observed": {"quick": {"pairs_fresh_vs_polluted": 1000, "pairs_solo_vs_concurrent": 1000, "seeds_vs_reference": 1000}},
+    "assumptions": ["seeds are sampled (corner values + random), relying on the generator having no seed-dependent control flow",
+                    "TSan build runs the thread-heavy profile; a ThreadSanitizer report in any child is a violation"],
+}
+
+PROPS["C16"] = {
+    "engines": ENG,
+    "jobs": [
+        dict(name="rng-dist", engine="rngsamp", flavour="rel", profile=0, quick=1, thorough=1, script="rngdist.py"),
+    ],
+    "rule": ("one case = one (sampler, parameter set) of a ~170-entry grid covering every distribution of the header incl. the boundary "
+             "values named in the property (p=1, p near 0/1, probability vectors summing to one only within 1e-3, shapes 0.05..50, n=1, "
+             "min~max, build-time ziggurat and alias tables); N seeded draws (2e5 quick / 2e6 thorough; ziggurat samplers 2e6 / 1e7) "
+             "checked draw-by-draw against the support predicate and by KS / chi-square / mean z-test / tail-mass tests against scipy "
+             "reference distributions with the two-stage p<1e-5 then p<1e-7 rule; distinct = distinct parameter sets; all non-trivial"),
+    "headline": ["parameter_sets", "draws", "support_checks", "fit_tests", "stage2_reruns", "worst_p_ppm_std_normal",
+                 "worst_p_ppm_std_exponential", "worst_p_ppm_std_beta", "worst_p_ppm_loaded_dice", "worst_p_ppm_geometric"],
+    "min_observed": {"quick": {"parameter_sets": 140, "draws": 20000000}},
+    "assumptions": ["scipy.stats reference CDF/PMFs are correct", "statistical: false-alarm probability < 1e-9 per parameter set by the two-stage rule",
+                    "samplers are driven from the dispatcher context (FP exceptions masked) so NaN results are observed rather than trapped"],
+}
+
 # --------------------------------------------------------------------------
 # Texts for MANIFEST.json (bin/gen_manifest.py)
 MANIFEST_TEXT = {
@@ -84,6 +123,22 @@ MANIFEST_TEXT = {
         "note": "Trusts the shadow map in poolfuzz.c and ASan+hook H3; population sizes up to ~130 chunks / 600k objects.",
         "technique": "runtime monitoring: shadow-map oracle over random alloc/free histories + AddressSanitizer with pool poisoning hook",
         "design_ref": "DESIGN.md 4/C20",
+    },
+    "C15": {
+        "level": ("Exploration: bitwise comparison of every returned sample between fresh, history-polluted and concurrent executions of "
+                  "random call programs, plus the raw stream against an independent reference implementation, plus ThreadSanitizer on "
+                  "the concurrent profile; held for the seeds/programs/histories run."),
+        "note": "Trusts the 20-line reference generator in rngdet.c; seeds sampled, not enumerated.",
+        "technique": "runtime monitoring: differential replay (fresh vs polluted vs concurrent threads) with bitwise oracle, reference-generator comparison, ThreadSanitizer",
+        "design_ref": "DESIGN.md 4/C15",
+    },
+    "C16": {
+        "level": ("Statistical exploration: every draw of large seeded samples is checked against the support predicate, and the samples "
+                  "against reference distributions (KS, chi-square, moment and tail-mass tests) for ~170 parameter sets including all "
+                  "boundary values named by the property; convergence is restated as a bounded goodness-of-fit threshold."),
+        "note": "Trusts scipy reference distributions; finite samples: a distortion smaller than ~1e-3 in CDF (quick) is not visible.",
+        "technique": "runtime monitoring: per-draw support oracle + goodness-of-fit monitors (KS/chi-square/moments/tails) over seeded samples, two-stage thresholds",
+        "design_ref": "DESIGN.md 4/C16",
     },
 }
 NOT_APPLICABLE = {}
